@@ -11,8 +11,8 @@ import common  # noqa: F401  (sets sys.path / PSYCLONE_CONFIG)
 LOOPDIRS = ("ompDo", "ompParallelDo", "ompTeamsDPD", "ompLoop", "accLoop")
 # kinds carrying a number: collapse value (LOOPDIRS), loop dependence distance (loop), nowait (ompSingle)
 NUMBERED = LOOPDIRS + ("loop", "ompSingle")
-LEAVES = ("stmt", "astmt", "ompTaskwait", "ompDeclareTarget", "accEnterData", "accUpdate", "accRoutine")
-KINDS = ("stmt", "astmt", "block", "loop", "ompParallel", "ompDo", "ompParallelDo", "ompTeamsDPD", "ompLoop",
+LEAVES = ("stmt", "astmt", "codeBlock", "ompTaskwait", "ompDeclareTarget", "accEnterData", "accUpdate", "accRoutine")
+KINDS = ("stmt", "astmt", "codeBlock", "block", "loop", "ompParallel", "ompDo", "ompParallelDo", "ompTeamsDPD", "ompLoop",
          "ompSingle", "ompMaster", "ompTaskloop", "ompTask", "ompTaskwait", "ompTarget", "ompAtomic", "ompSimd",
          "ompDeclareTarget", "accParallel", "accKernels", "accData", "accLoop", "accAtomic", "accEnterData",
          "accUpdate", "accRoutine")
@@ -85,6 +85,8 @@ def abstract_list(children, loopvars=()):
             out.append(["astmt" if atomic_form(node) else "stmt", 0, []])
         elif isinstance(node, n.Call):
             out.append(["stmt", 0, []])
+        elif isinstance(node, n.CodeBlock) and node.structure == n.CodeBlock.Structure.STATEMENT:
+            out.append(["codeBlock", 0, []])
         else:
             raise Unmodelled(type(node).__name__)
     return out
@@ -198,6 +200,9 @@ def build(forest, name="s"):
             sched.addchild(n.Assignment.create(n.ArrayReference.create(arr, [lit(1)]),
                                                n.Literal("1.0", REAL_TYPE)))
             return
+        if k == "codeBlock":
+            sched.addchild(_code_block())
+            return
         if k == "block":
             node = n.IfBlock.create(n.BinaryOperation.create(n.BinaryOperation.Operator.GT,
                                                              n.ArrayReference.create(arr, [lit(1)]),
@@ -258,6 +263,18 @@ def build(forest, name="s"):
 
     fill(routine, forest, 0)
     return routine
+
+
+_CB = []
+
+
+def _code_block():
+    """A fresh statement CodeBlock (`write(*,*) 1`), as the Fortran frontend creates it."""
+    n = _nodes()
+    if not _CB:
+        _, routine = parse("subroutine cb()\n  write(*,*) 1\nend subroutine cb\n")
+        _CB.append(routine.walk(n.CodeBlock)[0])
+    return _CB[0].copy()
 
 
 # ---------------------------------------------------------------- real outcomes
@@ -337,6 +354,9 @@ def gen_routine(rng, name, callees=()):
     counter = [0]
 
     def stmt(vs, ind):
+        if rng.random() < 0.06:
+            lines.append("%swrite(*,*) n" % ind)          # kept as a CodeBlock by the frontend
+            return
         idx = [vs[i] if i < len(vs) else "1" for i in range(3)]
         rng.shuffle(idx)
         arr = rng.choice("ab")
